@@ -175,7 +175,7 @@ with wide_stat (s : stat) {struct s} : bool :=
                       | EIndex _ _ _ => wide_exp v && negb (has_func v)
                       | _ => false
                       end) vars && forallb wide_exp es
-  | SLocal ns _ _ es _ => forallb frag_name ns && forallb wide_exp es && Nat.leb (length es) (length ns)
+  | SLocal ns _ _ es _ => forallb frag_name ns && forallb wide_exp es      (* any number of initialisers *)
   | SLocalFunc n _ f _ => frag_name n && match f with EFunc _ _ _ _ _ _ _ _ => wide_exp f | _ => false end
   end
 with wide_block (b : block) {struct b} : bool :=
@@ -306,3 +306,92 @@ Definition after_local (les : list (loc * list (list N))) (name : list N) (line 
 Definition near_str (strs : list (list N * loc)) (name : list N) (line col : Z) : bool :=
   existsb (fun x => beq_bytes (fst x) name && (sl (snd x) =? line) && (el (snd x) =? line)
                     && (sc (snd x) - 1 <=? col) && (col <=? ec (snd x) + 1)) strs.
+
+(* ------------------------------------------------------------------ boundary cursors (end-inclusive Loc tests)
+   Loc end columns are exclusive, but IsContainLoc / isInLocation compare them inclusively and the handlers look a
+   cursor up as a POINT.  Two more places where a cursor on the boundary of an identifier falls into a neighbouring
+   region (both classes are cursor dependent, like B1_adjacent_local_end):
+   * B4 at the boundary: the Loc of a call starts at the LAST token of its callee (`v[n]()`: at `]`).  When that token
+     is glued to an identifier (`[n]`), the cursor at the END of the identifier lies on the first column of the call's
+     Loc: if the call re-points the "empty" local n (`n = v[n]()`, class B4) the cursor is inside n's ReferExp and n is
+     not found there, although the identifier's own Loc is not contained in the call's Loc (no tag CB4).
+     rp_block = the re-pointing right-hand sides with their target names; b4_boundary o line col: the cursor (line,
+     col) stands at the end of the occurrence o of a local declared without a value (in the environment of o) and on
+     the first column of a re-pointing right-hand side of an assignment to that name.
+   * the scope of a `repeat` block ends with the `until` expression, the only block end that is not a keyword: an
+     identifier glued to it (`until f{v}v = 1`) starts on the (inclusive) end column of the scope and is looked up
+     INSIDE the block.  rends_block = the Locs of the repeat statements; at_repeat_end: the cursor stands there. *)
+Definition repoints (e : exp) : bool := match ref_of_exp e with RNone => false | _ => true end.
+
+Fixpoint rp_pairs (vars es : list exp) {struct vars} : list (list N * loc) :=
+  match vars, es with
+  | v :: vars', e :: es' =>
+    (match v with EName n _ => if repoints e then [(n, exp_loc e)] else [] | _ => [] end) ++ rp_pairs vars' es'
+  | _, _ => []
+  end.
+
+Fixpoint rp_exp (e : exp) {struct e} : list (list N * loc) :=
+  match e with
+  | EUnop _ e1 _ | EParens e1 _ => rp_exp e1
+  | EBinop _ e1 e2 _ | EIndex e1 e2 _ => rp_exp e1 ++ rp_exp e2
+  | ECall p _ args _ => rp_exp p ++ flat_map rp_exp args
+  | ETable ks vs _ =>
+    flat_map (fun k => match k with Some k' => rp_exp k' | None => [] end) ks ++ flat_map rp_exp vs
+  | EFunc _ _ _ _ b _ _ _ => rp_block b
+  | _ => []
+  end
+with rp_stat (s : stat) {struct s} : list (list N * loc) :=
+  match s with
+  | SBreak | SLabel _ _ | SGoto _ _ => []
+  | SDo b _ => rp_block b
+  | SCall e => rp_exp e
+  | SIf es bs _ => flat_map rp_exp es ++ flat_map rp_block bs
+  | SWhile e b _ => rp_exp e ++ rp_block b
+  | SRepeat b e _ => rp_block b ++ rp_exp e
+  | SForNum _ _ e1 e2 e3 b _ => rp_exp e1 ++ rp_exp e2 ++ rp_exp e3 ++ rp_block b
+  | SForIn _ _ es b _ => flat_map rp_exp es ++ rp_block b
+  | SAssign vars es _ => rp_pairs vars es ++ flat_map rp_exp vars ++ flat_map rp_exp es
+  | SLocal _ _ _ es _ => flat_map rp_exp es
+  | SLocalFunc _ _ f _ => rp_exp f
+  end
+with rp_block (b : block) {struct b} : list (list N * loc) :=
+  match b with
+  | Block ss ret _ => flat_map rp_stat ss ++ match ret with Some es => flat_map rp_exp es | None => [] end
+  end.
+
+Definition b4_boundary (rps : list (list N * loc)) (o : socc) (line col : Z) : bool :=
+  (el (s_loc o) =? line) && (ec (s_loc o) =? col)
+  && match env_find (s_env o) (s_name o) with Some (_, _, true) => true | _ => false end
+  && existsb (fun x => beq_bytes (fst x) (s_name o) && (sl (snd x) =? line) && (sc (snd x) =? col)) rps.
+
+Fixpoint rends_exp (e : exp) {struct e} : list loc :=
+  match e with
+  | EUnop _ e1 _ | EParens e1 _ => rends_exp e1
+  | EBinop _ e1 e2 _ | EIndex e1 e2 _ => rends_exp e1 ++ rends_exp e2
+  | ECall p _ args _ => rends_exp p ++ flat_map rends_exp args
+  | ETable ks vs _ =>
+    flat_map (fun k => match k with Some k' => rends_exp k' | None => [] end) ks ++ flat_map rends_exp vs
+  | EFunc _ _ _ _ b _ _ _ => rends_block b
+  | _ => []
+  end
+with rends_stat (s : stat) {struct s} : list loc :=
+  match s with
+  | SBreak | SLabel _ _ | SGoto _ _ => []
+  | SDo b _ => rends_block b
+  | SCall e => rends_exp e
+  | SIf es bs _ => flat_map rends_exp es ++ flat_map rends_block bs
+  | SWhile e b _ => rends_exp e ++ rends_block b
+  | SRepeat b e l => l :: rends_block b ++ rends_exp e
+  | SForNum _ _ e1 e2 e3 b _ => rends_exp e1 ++ rends_exp e2 ++ rends_exp e3 ++ rends_block b
+  | SForIn _ _ es b _ => flat_map rends_exp es ++ rends_block b
+  | SAssign vars es _ => flat_map rends_exp vars ++ flat_map rends_exp es
+  | SLocal _ _ _ es _ => flat_map rends_exp es
+  | SLocalFunc _ _ f _ => rends_exp f
+  end
+with rends_block (b : block) {struct b} : list loc :=
+  match b with
+  | Block ss ret _ => flat_map rends_stat ss ++ match ret with Some es => flat_map rends_exp es | None => [] end
+  end.
+
+Definition at_repeat_end (res : list loc) (line col : Z) : bool :=
+  existsb (fun l => (el l =? line) && (ec l =? col)) res.
